@@ -1,6 +1,7 @@
 package main
 
 import (
+	"go/constant"
 	"go/token"
 	"go/types"
 	"strings"
@@ -236,6 +237,7 @@ func runC12(p *P, r *R) {
 	borrow(p, r, "C13", runC13, map[string]string{"R13.1": "R12.6"}, func(o Ob) bool {
 		return constructHas(o, "testing the header's message type", "validated before it is returned")
 	})
+	c12MapperNeverCreates(p, r)
 }
 
 // R12.2
@@ -904,4 +906,78 @@ func c12Duality(p *P, r *R) {
 		})
 		r.ob("R12.5", "(*protocolInitializerV3).serverInit: every success exit answered the version exchange", p.pos(si.Pos()), okp, true, "%s", p.pathString(res))
 	}
+}
+
+// c12MapperNeverCreates (R12.8): only the side that lays the shared memory out may create the backing file. A mapping
+// function that opens the announced path with O_CREATE manufactures an empty file when the peer's file is missing
+// (peer gone, foreign path): the handshake then fails as it should, but leaves a file behind that nobody owns.
+// Rule: every os.OpenFile whose flags contain O_CREATE sits in a function that runs a creator role (free-list
+// creator, or the queue creator = the function that stores the initial head/tail).
+func c12MapperNeverCreates(p *P, r *R) {
+	oCreate := int64(-1)
+	if lp := p.LPkg.Imports["os"]; lp != nil && lp.Types != nil {
+		if c, ok := lp.Types.Scope().Lookup("O_CREATE").(*types.Const); ok {
+			if v, okv := constant.Int64Val(constant.ToInt(c.Val())); okv {
+				oCreate = v
+			}
+		}
+	}
+	if oCreate <= 0 {
+		r.fail("R12.8", "constant os.O_CREATE", "", "not resolved")
+		return
+	}
+	var creators []string
+	for _, c := range p.freeListRoles().creators {
+		creators = append(creators, p.fname(c))
+	}
+	for _, f := range p.fnList {
+		plain := false
+		allInstrs(f, func(in ssa.Instruction) {
+			if st, ok := in.(*ssa.Store); ok {
+				if w := wordOf(st.Addr); w == "*queue.head" || w == "*queue.tail" {
+					plain = true
+				}
+			}
+		})
+		if plain {
+			creators = append(creators, p.fname(f))
+		}
+	}
+	r.count("R12.8", "creator roles (free lists, queue)", len(creators), 2)
+	mCreator := p.mCall(creators...)
+	var mappers []string
+	for _, m := range p.freeListRoles().mappers {
+		mappers = append(mappers, p.fname(m))
+	}
+	mMapper := p.mCall(mappers...)
+	n := 0
+	for _, f := range p.fnList {
+		for _, ci := range findInstrs(f, p.mCall("os.OpenFile")) {
+			fl, okc := constInt(ci.(*ssa.Call).Call.Args[1])
+			if okc && fl&oCreate == 0 {
+				continue
+			}
+			n++
+			ok := p.may(f, mCreator, 3)
+			detail := ""
+			if !okc {
+				detail = "flags not constant"
+			} else if !ok {
+				detail = "the function never runs a creator"
+			} else {
+				// and what was opened for creation is never handed to a mapping-only step (branch-consistent from the open)
+				okp, res := p.findBadPath(f, []Point{pointOf(ci)}, pathOpts{StartFacts: true, Bad: func(in ssa.Instruction) bool {
+					if _, isCall := in.(*ssa.Call); !isCall {
+						return false
+					}
+					return p.evMay(in, mMapper, 3) && !p.evMay(in, mCreator, 3)
+				}})
+				if !okp {
+					ok, detail = false, "a path from this open reaches a mapping-only step: "+p.pathString(res)
+				}
+			}
+			r.ob("R12.8", p.fname(f)+": a file is opened with O_CREATE only by a function that lays the shared memory out", p.ipos(ci), ok && okc, true, "%s", detail)
+		}
+	}
+	r.count("R12.8", "os.OpenFile sites with O_CREATE", n, 2)
 }
